@@ -1,0 +1,59 @@
+//go:build verif
+
+package plan
+
+// Contracts for govc (comment-only; compiled only with -tags verif). Properties C07, C08.
+//
+// Execute: operations are visited in plan order; each operation type is dispatched to the
+// like-named visitor method with that operation's own fields; execution stops at the first
+// failing operation (nothing is attempted after it) and its error is returned; nil is returned
+// only after every operation was visited without error.
+//@ func (*Plan) Execute
+//@   requires [recv] p != nil
+//@   assigns **
+//@   ghost var failed bool = false
+//@   ghost var nDone int = 0
+//@   assert @v.Rename: [dispatch-rename] !failed && op.Type == OpRename && arg0 == op.Src && arg1 == op.Dst
+//@   ghost update @v.Rename: failed = (result != nil)
+//@   assert @v.Remove: [dispatch-remove] !failed && op.Type == OpRemove && arg0 == op.Src
+//@   ghost update @v.Remove: failed = (result != nil)
+//@   assert @v.RemoveAll: [dispatch-remove-all] !failed && op.Type == OpRemoveAll && arg0 == op.Src
+//@   ghost update @v.RemoveAll: failed = (result != nil)
+//@   assert @v.Checkpoint: [dispatch-checkpoint] !failed && op.Type == OpCheckpoint && arg0 == op.DB && arg1 == op.WALs
+//@   ghost update @v.Checkpoint: failed = (result1 != nil)
+//@   assert @v.WriteMeta: [dispatch-write-meta] !failed && op.Type == OpWriteMeta && arg0 == op.Dst && arg1 == op.Data
+//@   ghost update @v.WriteMeta: failed = (result != nil)
+//@   assert @v.MkdirAll: [dispatch-mkdir-all] !failed && op.Type == OpMkdirAll && arg0 == op.Dst
+//@   ghost update @v.MkdirAll: failed = (result != nil)
+//@   assert @v.CopyFile: [dispatch-copy-file] !failed && op.Type == OpCopyFile && arg0 == op.Src && arg1 == op.Dst
+//@   ghost update @v.CopyFile: failed = (result != nil)
+//@   assert @v.CalcCRC32: [dispatch-calc-crc32] !failed && op.Type == OpCalcCRC32 && arg0 == op.Src && arg1 == op.Dst
+//@   ghost update @v.CalcCRC32: failed = (result != nil)
+//@   assert @v.VerifyDB: [dispatch-verify-db] !failed && op.Type == OpVerifyDB && arg0 == op.Src
+//@   ghost update @v.VerifyDB: failed = (result != nil)
+//@   ghost update @iter:op: nDone = nDone + 1
+//@   loop 1 invariant [in-order-none-failed] !failed && nDone == _i
+//@   ensures [nil-means-all-done] result == nil ==> (!failed && nDone == len(old(p.Ops)))
+//@   ensures [failure-returned] failed ==> result != nil
+//
+// LastOpDone: the same dispatch, on the LAST operation only, to the inspector's "…Done" methods; an
+// empty plan is done.
+//@ func (*Plan) LastOpDone
+//@   requires [recv] p != nil
+//@   assert @c.RenameDone: [mirror-rename] op.Type == OpRename && arg0 == op.Src && arg1 == op.Dst
+//@   assert @c.RemoveDone: [mirror-remove] op.Type == OpRemove && arg0 == op.Src
+//@   assert @c.RemoveAllDone: [mirror-remove-all] op.Type == OpRemoveAll && arg0 == op.Src
+//@   assert @c.CheckpointDone: [mirror-checkpoint] op.Type == OpCheckpoint && arg0 == op.DB && arg1 == op.WALs
+//@   assert @c.WriteMetaDone: [mirror-write-meta] op.Type == OpWriteMeta && arg0 == op.Dst && arg1 == op.Data
+//@   assert @c.MkdirAllDone: [mirror-mkdir-all] op.Type == OpMkdirAll && arg0 == op.Dst
+//@   assert @c.CopyFileDone: [mirror-copy-file] op.Type == OpCopyFile && arg0 == op.Src && arg1 == op.Dst
+//@   assert @c.CalcCRC32Done: [mirror-calc-crc32] op.Type == OpCalcCRC32 && arg0 == op.Src && arg1 == op.Dst
+//@   assert @c.VerifyDBDone: [mirror-verify-db] op.Type == OpVerifyDB && arg0 == op.Src
+//@   assert @def:op: [non-empty] len(p.Ops) > 0
+//@   assert after @def:op: [last-operation] op.Type == p.Ops[len(p.Ops)-1].Type && op.Src == p.Ops[len(p.Ops)-1].Src && op.Dst == p.Ops[len(p.Ops)-1].Dst && op.DB == p.Ops[len(p.Ops)-1].DB && op.WALs == p.Ops[len(p.Ops)-1].WALs && op.Data == p.Ops[len(p.Ops)-1].Data
+//@   ensures [empty-plan-done] len(old(p.Ops)) == 0 ==> (result0 && result1 == nil)
+//
+//@ func New
+//@   ensures [usable] result != nil
+//@ func ReadFromFile
+//@   ensures [usable] result1 == nil ==> result0 != nil
